@@ -49,3 +49,45 @@ pub proof fn lemma_ordering_meaning(p: NodeLabel, o: NodeLabel)
     requires wf(p), wf(o)
     ensures (p.label_len < o.label_len && agree(p, o, p.label_len as int)) <==> (pfx(p, o) && p.label_len != o.label_len)
 {}
+
+// ---- set operations (second sentence of C17): why the binary-searchable path may look only at the ends of a sorted set.
+// For equal-length canonical labels the derived order (len, bytes) is the bit-lexicographic order ord_le of label_order.rs.
+// L-FIRSTLAST: in a sorted sequence every element shares the common prefix of the first and the last element
+// alarm: C17
+pub proof fn lemma_first_last(s: Seq<NodeLabel>, k: int, n: int)
+    requires
+        s.len() > 0, 0 <= k < s.len(), 0 <= n <= 256,
+        forall|x: int, y: int| 0 <= x < y < s.len() ==> ord_le(#[trigger] s[x], #[trigger] s[y]),
+        agree(s[0], s[s.len() - 1], n),
+    ensures agree(s[0], s[k], n)
+{
+    let a = s[0]; let b = s[k]; let c = s[s.len() - 1];
+    if k == 0 { } else if k == s.len() - 1 { } else {
+        assert(ord_le(a, b) && ord_le(b, c));
+        lemma_interval(a, b, c, n);
+    }
+}
+// L-MONO: in a sorted sequence of labels that all extend a prefix of m bits, "the next bit is 1" is monotone (false..false true..true),
+// so the binary search for the partition point finds the same split as a linear scan
+// alarm: C17
+pub proof fn lemma_partition_monotone(s: Seq<NodeLabel>, m: int, i: int, j: int)
+    requires
+        0 <= m < 256, 0 <= i < j < s.len(),
+        forall|x: int, y: int| 0 <= x < y < s.len() ==> ord_le(#[trigger] s[x], #[trigger] s[y]),
+        forall|x: int| 0 <= x < s.len() ==> agree(s[0], #[trigger] s[x], m),
+        bit(s[i], m),
+    ensures bit(s[j], m)
+{
+    let a = s[i]; let b = s[j];
+    assert(ord_le(a, b));
+    assert(agree(a, b, m)) by {
+        assert forall|q: int| 0 <= q < m implies bit(a, q) == bit(b, q) by { assert(bit(s[0], q) == bit(a, q)); assert(bit(s[0], q) == bit(b, q)); }
+    }
+    if bits_lt(a, b) {
+        let t = choose|t: int| bits_lt_at(a, b, t);
+        if t < m { assert(bit(a, t) == bit(b, t)); }
+        if t > m { assert(bit(a, m) == bit(b, m)); }
+    } else {
+        assert(bit(a, m) == bit(b, m));
+    }
+}
